@@ -301,3 +301,54 @@ def detail(computed: ComputedData) -> List[Dict[str, Any]]:
         }
         out.append(d)
     return out
+
+
+def dump(computed: ComputedData) -> Dict[str, Any]:
+    """Canonical plain-data rendering of everything a ComputedData exposes (exact rationals; keyed by spreadsheet row)."""
+    d: Dict[str, Any] = {}
+    d["in"] = [
+        (t.row, F(computed.get_crypto_in_running_sum(t)), F(computed.get_crypto_in_fee_running_sum(t)), F(computed.get_in_lot_sold_percentage(t)))
+        for t in computed.in_transaction_set
+    ]
+    d["out"] = [(t.row, F(computed.get_crypto_out_running_sum(t)), F(computed.get_crypto_out_fee_running_sum(t))) for t in computed.out_transaction_set]
+    d["intra"] = [(t.row, F(computed.get_crypto_intra_fee_running_sum(t))) for t in computed.intra_transaction_set]
+    d["taxable"] = [t.row for t in computed.taxable_event_set]
+    rows = detail(computed)
+    for r, gl in zip(rows, computed.gain_loss_set):
+        r["running"] = F(computed.get_crypto_gain_loss_running_sum(gl))
+    d["detail"] = rows
+    lines, dups = yearly_lines(computed)
+    d["yearly"] = lines
+    d["yearly_dups"] = dups
+    d["balances"] = [
+        (b.exchange, b.holder, F(b.final_balance), F(b.acquired_balance), F(b.sent_balance), F(b.received_balance)) for b in computed.balance_set
+    ]
+    d["price_per_unit"] = F(computed.price_per_unit)
+    return d
+
+
+def diff_dumps(a: Dict[str, Any], b: Dict[str, Any], keys: Optional[Sequence[str]] = None) -> Optional[str]:
+    """First difference between two dumps (None when equal)."""
+    for k in keys or sorted(set(a) | set(b)):
+        if a.get(k) != b.get(k):
+            va, vb = a.get(k), b.get(k)
+            if isinstance(va, list) and isinstance(vb, list):
+                if len(va) != len(vb):
+                    return f"{k}: {len(va)} entries vs {len(vb)}: {_short(va)} vs {_short(vb)}"
+                for i, (x, y) in enumerate(zip(va, vb)):
+                    if x != y:
+                        if isinstance(x, dict) and isinstance(y, dict):
+                            f = next(f for f in sorted(set(x) | set(y)) if x.get(f) != y.get(f))
+                            return f"{k}[{i}] (event row {x.get('event')}, lot row {x.get('lot')}): {f} {x.get(f)} vs {y.get(f)}"
+                        return f"{k}[{i}]: {x} vs {y}"
+            if isinstance(va, dict) and isinstance(vb, dict):
+                for kk in sorted(set(va) | set(vb), key=str):
+                    if va.get(kk) != vb.get(kk):
+                        return f"{k}[{kk}]: {va.get(kk)} vs {vb.get(kk)}"
+            return f"{k}: {_short(va)} vs {_short(vb)}"
+    return None
+
+
+def _short(v: Any) -> str:
+    s = str(v)
+    return s if len(s) <= 160 else s[:157] + "..."
